@@ -17,7 +17,7 @@ use crate::props::Prop;
 use crate::spell::{spell, spell_plain, Tuple};
 
 /// Typed vs type-agnostic parse of the same string.
-fn differential(s: &str, st: &mut Stats) -> Result<(), String> {
+pub fn differential(s: &str, st: &mut Stats) -> Result<(), String> {
     let g = match parse::<IStr>(s) {
         Err(_) => return Ok(()),
         Ok(g) => g,
